@@ -46,8 +46,8 @@ def main():
     os.makedirs(out, exist_ok=True)
     res = {"ran": []}
     # patch as it is in the worktree now
-    rc, diff = sh("git -C %s diff" % wt)
-    open(os.path.join(out, "patch.diff"), "w").write(diff)
+    diff = subprocess.run("git -C %s diff" % wt, shell=True, stdout=subprocess.PIPE).stdout       # bytes: some files have CRLF line ends
+    open(os.path.join(out, "patch.diff"), "wb").write(diff)
     for f in os.listdir(sdir):
         if f in ("wt", "build", "patch.diff") or f.startswith("lib") or os.path.isdir(os.path.join(sdir, f)):
             continue
